@@ -56,8 +56,8 @@ theorem findGlyph_some {i : Input} {g : String} {sg : SrcGlyph} (h : findGlyph i
 theorem wf_wf0 {i : Input} (h : wf i = true) : wf0 i = true := by
   simp only [wf, Bool.and_eq_true] at h; exact h.1
 
-theorem wf_nolib {i : Input} (h : wf i = true) : ∀ g ∈ i.glyphs, ∀ a ∈ g.anchors, a.lib = none ∧ a.idNoLib = false := by
-  simp only [wf, Bool.and_eq_true, all_eq_true, Option.isNone_iff_eq_none, Bool.not_eq_true'] at h
+theorem wf_nolib {i : Input} (h : wf i = true) : ∀ g ∈ i.glyphs, ∀ a ∈ g.anchors, a.lib = none := by
+  simp only [wf, Bool.and_eq_true, all_eq_true, Option.isNone_iff_eq_none] at h
   exact h.2
 
 theorem alwf_of_ok {i : Input} {al : AList} (hwf : wf0 i = true) (h : anchorLists i = .ok al) : ALwf i al := by
